@@ -197,6 +197,109 @@ def body_store(env):
                       abs(float(asm._peak['duct'][k][0]) - seen[k]) <= 1e-9 * abs(seen[k]), key='duct_peak_not_the_maximum')
 
 
+def body_summary(env):
+    """Summary tables of dassh.out through the public path (generated input -> Reactor -> real sweep -> CoolantTempTable /
+    DuctTempTable): the bulk outlet temperature printed for an assembly is the flow-weighted mean of its final-plane coolant
+    field (interior and flowing bypass), the peak outlet the maximum of the final-plane interior field, the peak total and its
+    height the running maximum recorded independently during the sweep; duct rows carry the face averages of the final-plane
+    mid-wall field.  Numbers are read back from the printed table (two decimals).  Concrete; no symbolic dimension."""
+    import os
+    import shutil
+    import tempfile
+    from symx import geninp, npshim
+    import dassh
+    import dassh.table as T
+    ftf, axial = env.params['ftf'], env.params['axial']
+    d = tempfile.mkdtemp(prefix='dassh-verif-c15.')
+    try:
+        a = geninp.default_asm(2, ftf=ftf, axial=axial or None, P=0.0062, D=0.0050, Dw=0.0008,
+                               extra=['bypass_gap_flow_fraction = %g' % env.params.get('byp', 0.05)] if len(ftf) > 2 else [])
+        b = geninp.default_asm(3, P=0.0052, D=0.0042, Dw=0.0008)
+        inp = geninp.write_case(d, {'a': a, 'b': b}, [('a', 1, 1, 'FLOWRATE=0.4'), ('b', 2, 1, 'FLOWRATE=0.5'), ('a', 2, 3, 'FLOWRATE=0.3')],
+                                gap_model='none', core_len=0.06, pin_power=lambda k: 1.5e5 * (1 + 0.2 * k), other_power=2000.0)
+        with npshim.unpatched():
+            r = dassh.Reactor(dassh.DASSH_Input(inp), path=os.path.join(d, 'out'), write_output=False, axial_mesh_size=0.005)
+            peak = [(-1.0, None)] * len(r.assemblies)
+            dpeak = {}
+            ndw = [max(np.asarray(rg.temp['duct_mw']).shape[0] for rg in asm.region) for asm in r.assemblies]
+            # recorders look at the fields at the moment of the real peak updates (the region active during the step,
+            # before any region change at the end of it)
+            def spy(k, asm, real):
+                def f():
+                    m = float(np.max(asm.active_region.temp['coolant_int']))
+                    if m > peak[k][0]:
+                        peak[k] = (m, float(asm.z))
+                    # walls of a region with fewer walls than the bundle are the outermost ones
+                    mw_ = np.asarray(asm.active_region.temp['duct_mw'], dtype=float)
+                    slots = dpeak.setdefault(k, {})
+                    for j in range(mw_.shape[0]):
+                        wall = ndw[k] - mw_.shape[0] + j
+                        slots[wall] = max(slots.get(wall, -1.0), float(np.max(mw_[j])))
+                    return real()
+                return f
+            for k, asm in enumerate(r.assemblies):
+                asm._update_peak_coolant_temps = spy(k, asm, asm._update_peak_coolant_temps)
+            r._data_setup()
+            r._data_open()
+            r.axial_step0()
+            for i in range(1, len(r.z)):
+                r.axial_step(r.z[i], r.dz[i - 1], i, False)
+            try:
+                r._data_close()
+            except (AttributeError, KeyError):
+                pass
+            ct, dt = T.CoolantTempTable(), T.DuctTempTable()
+            ct.make(r)
+            dt.make(r)
+    finally:
+        shutil.rmtree(d, ignore_errors=True)
+    rows = [l.split() for l in ct._table.splitlines() if l.strip() and l.split()[0].isdigit()]
+    env.holds('one coolant row per assembly', len(rows) == len(r.assemblies))
+    for k, asm in enumerate(r.assemblies):
+        reg = asm.region[-1]
+        Tint = np.asarray(reg.temp['coolant_int'], dtype=float)
+        if hasattr(reg, 'subchannel') and hasattr(reg, 'int_flow_rate'):
+            typ = np.asarray(reg.subchannel.type[:len(Tint)], dtype=int)
+            w = np.asarray(reg.coolant_int_params['fs'], dtype=float)[typ] * np.asarray(reg.params['area'], dtype=float)[typ]
+            w = w / w.sum() * float(reg.int_flow_rate)
+        else:
+            w = np.full(len(Tint), float(asm.flow_rate) / len(Tint))
+        num, den = float(np.dot(w, Tint)), float(w.sum())
+        if 'coolant_byp' in reg.temp and float(np.sum(reg.byp_flow_rate)) > 0:
+            for g in range(reg.temp['coolant_byp'].shape[0]):
+                wb = np.asarray(reg.area['coolant_byp'][g], dtype=float)
+                wb = wb / wb.sum() * float(np.ravel(reg.byp_flow_rate)[g])
+                num += float(np.dot(wb, np.asarray(reg.temp['coolant_byp'][g], dtype=float)))
+                den += float(wb.sum())
+        want = num / den
+        row = rows[k]
+        got_bulk, got_pk_out, got_pk_tot, got_ht = float(row[4]), float(row[5]), float(row[6]), float(row[-1])
+        env.holds('assembly %d: printed bulk outlet = flow-weighted mean of the final-plane coolant field (0.006 K)' % k,
+                  abs(got_bulk - want) <= 0.006, key='summary_outlet_not_the_final_plane_mean')
+        env.holds('assembly %d: printed peak outlet = maximum of the final-plane interior field' % k,
+                  abs(got_pk_out - float(np.max(Tint))) <= 0.006, key='summary_outlet_not_the_final_plane_mean')
+        env.holds('assembly %d: printed peak coolant temperature and height = maximum over the planes swept' % k,
+                  abs(got_pk_tot - peak[k][0]) <= 0.006 and abs(got_ht - peak[k][1]) <= 0.006, key='summary_peak_not_the_maximum')
+        env.holds('fixture (assembly %d): interior and bypass outlet temperatures differ by more than the print resolution' % k,
+                  ('coolant_byp' not in reg.temp) or abs(float(np.mean(reg.temp['coolant_byp'])) - float(np.mean(Tint))) > 0.05)
+    drows = [l.split() for l in dt._table.splitlines() if l.strip() and l.split()[0].isdigit()]
+    n = 0
+    for k, asm in enumerate(r.assemblies):
+        mw = np.asarray(asm.region[-1].temp['duct_mw'], dtype=float)
+        for dct in range(mw.shape[0]):
+            row = drows[n]
+            n += 1
+            faces = [float(x) for x in row[-8:-2]]
+            per = mw[dct].reshape(6, -1)
+            lo, hi = per.min(axis=1), per.max(axis=1)
+            ok = all(min(lo[f], lo[f - 1]) - 0.006 <= faces[f] <= max(hi[f], hi[f - 1]) + 0.006 for f in range(6))
+            env.holds('assembly %d duct %d: printed face averages lie within the final-plane mid-wall field of that face' % (k, dct), ok,
+                      key='summary_duct_faces_not_the_final_plane')
+            wall = ndw[k] - mw.shape[0] + dct
+            env.holds('assembly %d, row of wall %d (outlet-plane wall %d): printed peak = maximum of that wall\'s mid-wall field over the planes swept'
+                      % (k, wall, dct), abs(float(row[-2]) - dpeak[k][wall]) <= 0.006, key='summary_duct_peak_of_another_wall')
+
+
 def instances(tier):
     inst = []
     for n, steps in ([(2, 1), (3, 1), (2, 2), (3, 2)] if tier == 'quick' else [(2, 1), (3, 1), (4, 1), (2, 2), (3, 2), (4, 2), (3, 3), (5, 1)]):
@@ -217,6 +320,10 @@ def instances(tier):
                            ('double duct, unrodded regions below and above', dd, [('lower', 0.0, 0.02, 0.3), ('upper', 0.04, 0.06, 0.3)]),
                            ('single duct, unrodded region below the rods', (0.026, 0.028), [('lower', 0.0, 0.02, 0.3)])):
         inst.append(dict(label='peak-store[%s]' % nm, body=body_store, params={'ftf': ftf, 'axial': axial}, check_vacuity=False))
+    for nm, ftf, axial in (('single duct', (0.026, 0.028), None), ('double duct with flowing bypass', dd, None),
+                           ('double duct, unrodded region below the rods', dd, [('lower', 0.0, 0.02, 0.3)]),
+                           ('double duct, unrodded region above the rods', dd, [('upper', 0.04, 0.06, 0.3)])):
+        inst.append(dict(label='summary-tables[%s]' % nm, body=body_summary, params={'ftf': ftf, 'axial': axial}, check_vacuity=False))
     return inst
 
 
@@ -231,7 +338,7 @@ def main():
                      'that of a plane (and pin) where the maximum is attained, and that ducts absent from the active region are untouched.'),
         bounds={'cells per field': '2..3 (quick) / 2..5', 'steps folded': '1..2 (quick) / 1..3', 'ducts': 'region 1..3 of assembly 1..3',
                 'pins': '2..3 (quick) / 2..4'},
-        outside=['table.py formatting; outlet/average rows of the summary (float formatting, no symbolic content)',
+        outside=['summary tables: only the coolant and duct tables of enumerated real sweeps are read back (two decimals; float formatting has no symbolic content); PeakPinTempTable and the hot-spot columns are not read',
                  'the inlet plane (peaks are updated after each step only)', 'longer histories follow by induction over the fold step'],
         level_assumptions=['temperatures in (0, 5000] K; heights strictly increasing along the sweep'])
 
